@@ -103,7 +103,7 @@ Lemma sanity_ok m r : sanity cur m r = Ok tt ->
 Proof.
   unfold sanity. destruct (lookup_tpl m (rec_tid r)) as [[ies ml]|]; [|discriminate].
   destruct (N.eqb_spec (rec_fc r) (u16 (N.of_nat (length ies)))); cbn [negb]; [|discriminate].
-  cbn [cur fx_reclen].
+  cbn [cur fx_reclen fx_zerolen]. fold (rec_buffer_e r).
   destruct (rec_buffer_e r) as [[b k]| | |]; cbn [obind]; try discriminate.
   destruct (blen b <? ml); [discriminate|]. cbn [cur fx_encode andb].
   destruct (Nat.eqb_spec k 0); cbn [negb]; [|discriminate]. subst k. intros _. eauto 6.
